@@ -292,6 +292,13 @@ class FailObserver:
             b.violate('it.effect', site, 'failed_condition_took_effect', '%s (word %#x) under failing condition %d (NZCV %x, ITSTATE %#x): changed %s cpsr %#x -> %#x' % (
                 name, arm.opcode, b.case['cond'], b.case['nzcv'], b.case['cores'][0]['force']['it'], chg, pre[1], post[1]))
             return
+        it0 = ((pre[1] >> 8) & 0xFC) | ((pre[1] >> 25) & 3)
+        it1 = ((post[1] >> 8) & 0xFC) | ((post[1] >> 25) & 3)
+        if it1 != IT.it_advance(it0):
+            # the skipped instruction still occupies its slot: ITSTATE advances exactly once, whether the word decodes to something or to nothing
+            b.violate('it.model', site, 'itstate_not_advanced', 'word %#x under failing condition %d: ITSTATE %#x -> %#x, ITAdvance gives %#x' % (
+                arm.opcode, b.case['cond'], it0, it1, IT.it_advance(it0)))
+            return
         mem = (M.peek(arm, G.DATA, 0x1000), M.peek(arm, G.STACKS, 0x1000))
         if getattr(self, 'mem', mem) != mem:
             b.violate('it.effect', site, 'failed_condition_took_effect', '%s (word %#x) under failing condition %d wrote memory' % (name, arm.opcode, b.case['cond']))
@@ -502,7 +509,7 @@ def gen(item, rng, tier):
     extra = dict(G.mpu_sys(mpu, nu=rng.getrandbits(1)))
     ee = int(rng.random() < 0.3)
     st = P.main_state(rng, cfg, mode, 1, te, extra, e=e_main, ee=ee)
-    st['sys']['sctlr'] = G.sctlr_value(m=1, a=0, u=1, te=te, v=0, br=1, ee=ee)
+    st['sys']['sctlr'] = G.sctlr_value(m=1, a=0, u=1, te=te, v=0, br=1, ee=ee) | (st['sys']['sctlr'] & 1 << 24)
     if cfg['have_security_ext'] and rng.random() < 0.4:
         # Non-secure program and handlers (SCR.AW seeded; FW=1 so that a Non-secure FIQ entry can mask F)
         st['sys']['scr'] = 1 | 1 << 4 | rng.getrandbits(1) << 5
